@@ -1,4 +1,4 @@
 SPECIFICATION Spec
-CONSTANT Fams = {"core", "wide", "delim", "bytes"}
+CONSTANT Fams = {"core", "long", "wide", "delim", "bytes"}
 CONSTANT Deep = 0
 INVARIANT Laws
